@@ -7,7 +7,12 @@ SEQ_NOTE = ("trusted: gcc/ASan/UBSan, the reference model in seq/, the harness s
             "_exit; the code under test is the real translation unit rebuilt from /repo's working tree")
 VK_NOTE = ("trusted: the virtual kernel model (vk/kernel.hpp, vk/ops.hpp; bound to Linux by vk/conformance), the LD_PRELOAD shim, the scenario's "
            "oracle; the programs are the unmodified binaries built from /repo's working tree by its own Makefile")
+DAEMON_NOTE = VK_NOTE + "; spawners are controller scripts on the daemon's pipes (their own code is covered by C09/C11/C18), time is a virtual clock"
 CHECKS = {
+ "C03": dict(engine="VK", category="model_checking", design_ref="4/C03",
+             technique="stateless deviation-bounded exploration of complete histories of the real qmail-send/qmail-clean/qmail-queue binaries under a virtual kernel: every choice of answered delivery and verdict (K/Z/D/garbled), signals, machine crash (all keep/lose patterns) or kill before every mutating call, every single failing call; ledger monitors on every system call; every history run until the queue drains",
+             text="The guarantee is about all histories of a long-running daemon including restarts; the explorer enumerates every history that deviates from the all-success default in at most 2-3 places (quick/thorough), including every crash point and every failing call, on the real binaries, and checks the delivered-or-bounced ledger at every step and at the end.",
+             note=DAEMON_NOTE),
  "C18": dict(engine="VK", category="exploration", design_ref="4/C18",
              technique="bounded-exhaustive request enumeration against the real qmail-clean binary under the virtual kernel (one request per quiescent interval; oracle on the exact unlink() paths and reply bytes), with every unlink failing once",
              text="Validation bugs show only on malformed requests; every request of the bounded set is sent to the real helper and its system calls are compared with the documented behaviour, so within the bound acceptance and effect are decided for all requests.",
